@@ -1,6 +1,7 @@
 package checks
 
 import (
+	"context"
 	"encoding/json"
 	"fmt"
 	"sync"
@@ -100,10 +101,14 @@ func c12Run(t rt.TB, c c12Case) {
 			var pan any
 			func() {
 				defer func() { pan = recover() }()
-				obs.Subscribe(rec)
+				obs.SubscribeWithContext(c12Ctx(i), rec)
 			}()
 			if pan != nil {
 				fail("panic-escaped", fmt.Sprint(pan))
+				return
+			}
+			if m := c12ForeignCtx(rec, i); m != "" {
+				fail("context-of-another-subscription", fmt.Sprintf("%s over [%s]: subscription #%d: %s", name, rt.ScriptString(s), i+1, m))
 				return
 			}
 			got := cat.TraceOf(rec.Trace())
@@ -138,10 +143,14 @@ func c12Run(t rt.TB, c c12Case) {
 			var pan any
 			func() {
 				defer func() { pan = recover() }()
-				obss[i].Subscribe(rec)
+				obss[i].SubscribeWithContext(c12Ctx(i), rec)
 			}()
 			if pan != nil {
 				fail("panic-escaped", fmt.Sprint(pan))
+				return
+			}
+			if m := c12ForeignCtx(rec, i); m != "" {
+				fail("context-of-another-subscription", fmt.Sprintf("%s applied to %d sources, subscribing in order %v: pipeline #%d: %s", name, len(c.Scripts), c.Order, i+1, m))
 				return
 			}
 			got := cat.TraceOf(rec.Trace())
@@ -228,6 +237,27 @@ func c12Run(t rt.TB, c c12Case) {
 }
 
 type obsI = ro.Observable[int]
+
+// every subscription of a reuse check brings a context of its own, marked with its
+// number: a notification that carries the mark of ANOTHER subscription shows state
+// kept at operator level (a missing mark is C09's business, not judged here)
+type c12SubKey struct{}
+
+func c12Ctx(i int) context.Context {
+	return context.WithValue(context.Background(), c12SubKey{}, i+1)
+}
+
+func c12ForeignCtx(r *rt.Recorder[int], i int) string {
+	for _, x := range r.Recs() {
+		if x.Ctx == nil {
+			continue
+		}
+		if v, ok := x.Ctx.Value(c12SubKey{}).(int); ok && v != i+1 {
+			return fmt.Sprintf("%s arrived with the context of subscription #%d", x.String(), v)
+		}
+	}
+	return ""
+}
 
 func c12Scripts() [][]rt.Ev {
 	return [][]rt.Ev{
